@@ -82,6 +82,18 @@ CRAFTED = [
     ("ansi", "INSERT INTO t SELECT a FROM s1 UNION ALL SELECT a FROM s2; DROP TABLE s2; INSERT INTO u SELECT a FROM t"),
     ("sparksql", "INSERT OVERWRITE TABLE t SELECT a FROM s; INSERT INTO TABLE u SELECT a FROM t; INSERT OVERWRITE DIRECTORY 'hdfs://x/y' SELECT a FROM u"),
     ("postgres", "SELECT a, b INTO t FROM s; UPDATE t SET a = s2.a FROM s2 WHERE s2.k = t.b; INSERT INTO u SELECT a FROM t"),
+    # multi-part column references with quoted parts
+    ("ansi", 'INSERT INTO rpt.out SELECT "sales".orders.amount, sales."orders".id FROM sales.orders'),
+    ("tsql", "INSERT INTO [rpt].[out] SELECT [dbo].[orders].[amount], o2.[id] FROM [dbo].[orders] JOIN [dbo].[o2] AS o2 ON [dbo].[orders].[id] = o2.[id]"),
+    ("mysql", "INSERT INTO rpt.out SELECT `sales`.`orders`.`amount` FROM `sales`.`orders`"),
+    ("ansi", 'CREATE TABLE stage AS SELECT "db"."sales"."orders"."amount" AS a FROM "db"."sales"."orders"; INSERT INTO rpt.out SELECT stage.a FROM stage'),
+    # a table that only has column lineage (written by a statement that reads no table) and is dropped later
+    ("ansi", "UPDATE t SET a = b; DROP TABLE t"),
+    ("ansi", "INSERT INTO t SELECT sq.x FROM (SELECT 1 AS x) sq; DROP TABLE t; INSERT INTO u SELECT k FROM v"),
+    ("postgres", "CREATE TABLE days AS SELECT d FROM generate_series(1, 3) AS g(d); INSERT INTO u SELECT k FROM v; DROP TABLE days"),
+    ("ansi", "CREATE TABLE t (a int, b int); INSERT INTO u SELECT k FROM v; DROP TABLE t"),
+    ("ansi", "INSERT INTO t SELECT v.x FROM (VALUES (1), (2)) AS v (x); DROP TABLE IF EXISTS t"),
+    ("ansi", "DROP TABLE t; UPDATE t SET a = b; INSERT INTO u SELECT a FROM t; DROP TABLE t"),
 ]
 
 
